@@ -405,15 +405,15 @@ fn table_exits<E: Elem>(c: &mut Ctx, spec: &Spec, rng: &mut Rng) {
 }
 
 /// Zero-sized elements with a counted destructor, including many duplicates in a HashTable.
-fn zst_exits(c: &mut Ctx, rng: &mut Rng) {
+fn zst_exits<ZT: Elem>(c: &mut Ctx, rng: &mut Rng) {
     let n = *rng.pick(&[1usize, 3, 8, 17, 40]);
     let h = rng.next();
     for exit in 0..5u64 {
-        let what = format!("HashTable<Z> n={} exit {}", n, exit);
+        let what = format!("HashTable<{}> n={} exit {}", ZT::NAME, n, exit);
         c.sig_parts(&[300 + exit, (n > 16) as u64]);
-        let mut t: hashbrown::HashTable<Z, CkAlloc> = hashbrown::HashTable::new_in(CkAlloc);
+        let mut t: hashbrown::HashTable<ZT, CkAlloc> = hashbrown::HashTable::new_in(CkAlloc);
         for _ in 0..n {
-            t.insert_unique(h, Z::make(0, 0), |_| h);
+            t.insert_unique(h, ZT::make(0, 0), |_| h);
         }
         match exit {
             0 => t.clear(),
@@ -500,7 +500,8 @@ pub fn run(c: &mut Ctx) {
             8 => table_exits::<T24>(c, &spec, rng),
             9 => table_exits::<A64>(c, &spec, rng),
             _ => {
-                zst_exits(c, rng);
+                zst_exits::<Z>(c, rng);
+                zst_exits::<crate::elem::Z8>(c, rng);
                 never_allocates(c, rng);
             }
         }
